@@ -900,8 +900,11 @@ func nameServices(from reflect.Value, to reflect.Value) (interface{}, error) {
 		iter := from.MapRange()
 		for iter.Next() {
 			name := iter.Key()
-			elem := iter.Value()
-			elem.Elem().SetMapIndex(nameK, name)
+			elem := iter.Value().Elem()
+			if elem.Kind() != reflect.Map || elem.IsNil() {
+				return nil, fmt.Errorf("services.%s must be a mapping", name)
+			}
+			elem.SetMapIndex(nameK, name)
 		}
 	}
 	return from.Interface(), nil
